@@ -4,6 +4,7 @@ CONSTANTS
   Json <- JsonTbl
   Literal <- LitTbl
   DecodeFirst = FALSE
+  HandsOutCopy = TRUE
   MaxCalls = 3
 INVARIANT CarrierFree
 INVARIANT LoadAgrees
